@@ -61,7 +61,7 @@ def make_extend_then_stop(rng):
 
 def cases(tier, seed, shard, nshards):
     rng = random.Random(f"{seed}:C02:{shard}")
-    n = (3600 if tier == "quick" else 150000) // nshards
+    n = (3600 if tier == "quick" else 100000) // nshards
     for i in range(n):
         path = PATHS[i % len(PATHS)]
         if path == "extend-then-stop":
